@@ -5,12 +5,15 @@ package contextscope
 // Machine-checked contracts for /verif (gowp). Comment-only file: it adds no code.
 
 // The error list and the closed state of the done channel are protected by errorsMU.
+// the error list only grows: what was there when the lock was taken is a prefix of what is there when it is released
 //@ type ContextScope
 //@   field errors guarded_by errorsMU
+//@   monitor errorsMU invariant len(self.errors) >= old(len(self.errors)) && forall(k, 0 <= k && k < old(len(self.errors)) ==> self.errors[k] == old(self.errors[k]))
 //@   field done immutable
 //@   chan done guarded_by errorsMU
 //@ type Isolated
 //@   field errors guarded_by errorsMU
+//@   monitor errorsMU invariant len(self.errors) >= old(len(self.errors)) && forall(k, 0 <= k && k < old(len(self.errors)) ==> self.errors[k] == old(self.errors[k]))
 //@   field done immutable
 //@   chan done guarded_by errorsMU
 //@   field parent immutable
